@@ -5,10 +5,34 @@ pub mod pref;
 pub mod prng;
 
 pub mod c01;
+pub mod c02;
+pub mod c03;
+pub mod c04;
+pub mod c05;
+pub mod c06;
+pub mod c07;
+pub mod c08;
+pub mod c09;
+pub mod c10;
+pub mod c11;
+pub mod c12;
+pub mod c13;
+pub mod c14;
+pub mod c15;
+pub mod c16;
+pub mod c17;
+pub mod c18;
+pub mod c19;
+pub mod c20;
+pub mod c21;
+pub mod c22;
+pub mod c23;
+pub mod c24;
+pub mod c25;
 
 pub const GENERATOR_VERSION: u32 = 1;
 
-/// All implemented checks.
+/// All checks (one module per property).
 pub fn registry() -> Vec<core::CheckInfo> {
-    vec![c01::info()]
+    vec![c01::info(), c02::info(), c03::info(), c04::info(), c05::info(), c06::info(), c07::info(), c08::info(), c09::info(), c10::info(), c11::info(), c12::info(), c13::info(), c14::info(), c15::info(), c16::info(), c17::info(), c18::info(), c19::info(), c20::info(), c21::info(), c22::info(), c23::info(), c24::info(), c25::info()]
 }
